@@ -827,7 +827,15 @@ func (ctx *context) Run() (res *Result) {
 
 	defer func() {
 		if r := recover(); r != nil {
-			ctx.res.runErr = fmt.Errorf("%s", r)
+			// Keep the first failure of the run: an error already reported
+			// (eg by the data tree) must not be masked by a later panic.
+			if ctx.res.runErr == nil {
+				if err, ok := r.(error); ok {
+					ctx.res.runErr = err
+				} else {
+					ctx.res.runErr = fmt.Errorf("%s", r)
+				}
+			}
 			res = ctx.res
 		}
 		ctx.saveDebug()
@@ -841,6 +849,11 @@ func (ctx *context) Run() (res *Result) {
 		instr.fn(ctx)
 		ctx.addDebug(ctx.pfx + "----\n")
 		_ = x
+		if ctx.res.runErr != nil {
+			// An instruction reported a failure: the remaining
+			// instructions have nothing valid to work on.
+			break
+		}
 	}
 
 	return ctx.res
